@@ -8,6 +8,7 @@ import (
 	"sort"
 	"strings"
 	"testing"
+	"time"
 
 	"k8s.io/apimachinery/pkg/runtime"
 	k8sjson "k8s.io/apimachinery/pkg/util/json"
@@ -178,6 +179,15 @@ type roundSpec struct {
 	MidOps map[string][]extOp `json:"midOps"`   // request index -> ops applied just before that request
 	Faults map[string]J       `json:"faults"`   // request index -> {code, reason}
 	LateOps []extOp           `json:"lateOps"`  // after the caches are taken, before the sync starts
+	FaultOn []faultOn         `json:"faultOn"`  // faults aimed at a kind of request rather than a position
+}
+
+type faultOn struct {
+	Verb      string `json:"verb"`
+	Kind      string `json:"kind"`
+	AfterHook bool   `json:"afterHook"`
+	Nth       int    `json:"nth"` // 0 = first matching request
+	Fault     J      `json:"fault"`
 }
 
 type scenario struct {
@@ -294,7 +304,21 @@ func runScenario(sc *scenario) (*caseRec, error) {
 		for _, op := range r.LateOps {
 			w.applyExt(op)
 		}
+		seen := make([]int, len(r.FaultOn))
 		w.srv.SetBeforeRequest(func(n int, verb, apiVersion, kind, ns, name string) *sim.Fault {
+			for fi, fo := range r.FaultOn {
+				if fo.Verb == verb && fo.Kind == kind && (!fo.AfterHook || len(hookTransport.Calls()) > 0) {
+					seen[fi]++
+					if seen[fi]-1 == fo.Nth {
+						code, _ := fo.Fault["code"].(float64)
+						if c2, ok := fo.Fault["code"].(int); ok {
+							code = float64(c2)
+						}
+						reason, _ := fo.Fault["reason"].(string)
+						return &sim.Fault{Code: int(code), Reason: reason}
+					}
+				}
+			}
 			idx := fmt.Sprint(n)
 			for _, op := range r.MidOps[idx] {
 				w.applyExt(op)
@@ -491,8 +515,15 @@ func coqRound(s *ctlSpec, r *roundRec) string {
 	case "requeue":
 		res = fmt.Sprintf("(SRequeue %s)", vh.CoqZ(r.RequeueAfter))
 	}
-	return fmt.Sprintf("(mkRound (mkCache %s [%s]) [%s] %s)", parent, strings.Join(groups, "; "), strings.Join(evs, ";\n  "), res)
+	qs := []string{}
+	for _, op := range r.Queue {
+		qs = append(qs, fmt.Sprintf("(%s, %s, %s)", vh.MustCoqString(op.Op), vh.MustCoqString(op.Key), vh.CoqZ(int64(op.Delay/time.Millisecond))))
+	}
+	return fmt.Sprintf("(mkRound (mkCache %s [%s]) [%s] %s [%s] %s)", parent, strings.Join(groups, "; "), strings.Join(evs, ";\n  "), res,
+		strings.Join(qs, "; "), vh.MustCoqString(parentKeyOf(r)))
 }
+
+func parentKeyOf(r *roundRec) string { return r.Key }
 
 func coqCase(c *caseRec) string {
 	rounds := []string{}
